@@ -1109,6 +1109,120 @@ static void big_shared_scenario(const vf::Op& o, const std::string& tag)
 	}
 }
 
+// a self-contained scenario on a private, UNSHARED array (one handle: not KF-1): elements of the array itself are appended
+// BY REFERENCE (a << a[k], chained, with the comma operator) and assigned (a[i] = a[j]) while the length sweeps upwards
+// through every capacity boundary; the appended value must be a copy of what the element held before the call
+static void self_append_scenario(const vf::Op& o, const std::string& tag)
+{
+	int len0 = 1 + mod(o.i(0), 50), route = mod(o.i(1), 3), count = 1 + mod(o.i(2), 52);
+	unsigned long long r = uabs(o.i(3)) * 2654435761ULL + 99;
+	auto next = [&]() {
+		r = r * 6364136223846793005ULL + 1442695040888963407ULL;
+		return (long long)(r >> 33);
+	};
+	Var a;
+	VVal m = ref::varr();
+	auto elem = [&](int i, Var& out) -> VVal {
+		switch (mod(next(), 5)) {
+		case 0: out = i; return ref::vint(i);
+		case 1: out = "short"; return ref::vstr("short");
+		case 2: {
+			std::string s = "a string on the heap #" + std::to_string(i);
+			out = String(s.c_str());
+			return ref::vstr(s);
+		}
+		case 3: out = 0.5 * i; return ref::vnum(0.5 * i);
+		default: {
+			out = Var(Var::ARRAY);
+			out << i << "nested element on the heap";
+			VVal v = ref::varr();
+			v.n->arr = {ref::vint(i), ref::vstr("nested element on the heap")};
+			return v;
+		}
+		}
+	};
+	if (route == 1)
+		a.resize(len0); // capacity == length whenever len0 > 3: the very first append moves the block
+	for (int i = 0; i < len0; i++) {
+		Var e;
+		VVal em = elem(i, e);
+		if (route == 1)
+			a[i] = e;
+		else if (route == 0)
+			a << e; // capacities 3, 6, 12, 24, 48, 96
+		else
+			a[i] = e; // auto-resize: reserve() growth
+		m.n->arr.push_back(em);
+	}
+	auto check_local = [&](const char* after, int step) {
+		std::map<const VNode*, int> hc;
+		ref::count_handles(m, hc);
+		std::map<const VNode*, const void*> n2b;
+		std::map<const void*, const VNode*> b2n;
+		Walk w{&n2b, &b2n, &hc};
+		check_view(a, m, w, vf::str(tag, " (own element appended by reference) step ", step, " after ", after, ", length ", m.n->arr.size()));
+	};
+	check_local("construction", 0);
+	for (int step = 1; step <= count && m.n->arr.size() < 110; step++) {
+		int n = (int)m.n->arr.size();
+		bool full = a.array().cap() == n;
+		int k = mod(next(), n), k2 = mod(next(), n);
+		switch (mod(next(), 8)) {
+		case 0:
+		case 1:
+		case 2:
+			a << a[k];
+			m.n->arr.push_back(VVal(m.n->arr[k]));
+			CLS(full ? "selfapp.append_own_element_at_capacity" : "selfapp.append_own_element");
+			break;
+		case 3:
+			(a, a[k]);
+			m.n->arr.push_back(VVal(m.n->arr[k]));
+			CLS(full ? "selfapp.append_own_element_at_capacity" : "selfapp.append_own_element");
+			break;
+		case 4: { // two appends in a row (the second one may be the one that finds the array full)
+			a << a[k];
+			m.n->arr.push_back(VVal(m.n->arr[k]));
+			a << a[k2];
+			m.n->arr.push_back(VVal(m.n->arr[k2]));
+			CLS(full ? "selfapp.append_own_element_at_capacity" : "selfapp.append_own_element");
+			break;
+		}
+		case 5: // the last element, the one next to the insertion point
+			a << a[n - 1];
+			m.n->arr.push_back(VVal(m.n->arr[n - 1]));
+			CLS(full ? "selfapp.append_own_element_at_capacity" : "selfapp.append_own_element");
+			break;
+		case 6: { // a[i] = a[j] (no growth)
+			VVal tmp = m.n->arr[k2];
+			a[k] = a[k2];
+			m.n->arr[k] = tmp;
+			CLS("selfapp.assign_own_element");
+			break;
+		}
+		default: { // an element of a nested array appended to the outer one (block of the argument does not move)
+			int j = -1;
+			for (int q = 0; q < n; q++)
+				if (m.n->arr[(k + q) % n].k == VVal::ARR && !m.n->arr[(k + q) % n].n->arr.empty()) {
+					j = (k + q) % n;
+					break;
+				}
+			if (j < 0) {
+				a << a[k];
+				m.n->arr.push_back(VVal(m.n->arr[k]));
+			}
+			else {
+				a << a[j][1];
+				m.n->arr.push_back(VVal(m.n->arr[j].n->arr[1]));
+			}
+			CLS(full ? "selfapp.append_own_element_at_capacity" : "selfapp.append_own_element");
+			break;
+		}
+		}
+		check_local("the op", step);
+	}
+}
+
 // ---------------------------------------------------------------------------------------------
 // the interpreter
 
@@ -1526,25 +1640,15 @@ static void run_body(const std::string& part, const vf::Case& c, Flags& flags_ou
 				continue;
 			if (t.m->k == VVal::ARR && st.shared(*t.m))
 				st.f.shared_mut = true;
-			// an element of the receiving array passed by reference while the array has to grow is the Array::insert
-			// aliasing case of C01 (#2): pass a copy there
+			// an element of the receiving array itself, passed by reference (a << a[k]); when the array is exactly full the
+			// block moves while the argument still points into it
 			bool own_elem = t.m->k == VVal::ARR && s.parent == t.m->n.get();
-			if (own_elem && len + 1 > cap_of(*t.v, *t.m)) {
-				Var copy(*s.v);
-				if (o.i(11) & 1)
-					(*t.v, copy);
-				else
-					*t.v << copy;
-				CLS("appv.own_element_at_capacity_by_copy");
-			}
-			else {
-				if (o.i(11) & 1)
-					(*t.v, *s.v);
-				else
-					*t.v << *s.v;
-				if (own_elem)
-					CLS("appv.own_element_by_ref");
-			}
+			if (own_elem)
+				CLS(len + 1 > cap_of(*t.v, *t.m) ? "appv.own_element_by_ref_at_capacity" : "appv.own_element_by_ref");
+			if (o.i(11) & 1)
+				(*t.v, *s.v);
+			else
+				*t.v << *s.v;
 			if (t.m->k == VVal::NONE)
 				*t.m = ref::varr();
 			if (t.m->k == VVal::ARR) {
@@ -1712,6 +1816,10 @@ static void run_body(const std::string& part, const vf::Case& c, Flags& flags_ou
 				st.f.shared_mut = true;
 			remove_down_to(*t.v, *t.m, mod(o.i(5), 5), mod(o.i(6), 4), o.i(6));
 			CLS(before >= 128 || (t.m->k == VVal::OBJ && before >= 52) ? (sh ? "rmmany.large_shared" : "rmmany.large_unshared") : (sh ? "rmmany.small_shared" : "rmmany.small_unshared"));
+		}
+		else if (nm == "selfapp") {
+			self_append_scenario(o, tag);
+			continue; // works on a private Var only
 		}
 		else if (nm == "bigshare") {
 			big_shared_scenario(o, tag);
@@ -2147,6 +2255,7 @@ Gen<vf::Op> opGen()
 	    {1, pxy("big")},
 	    {1, pxy("rmmany")},
 	    {1, bigshare},
+	    {2, gen::map(gen::container<std::vector<long long>>(4, gen::cast<long long>(vf::irange<int>(0, 9999))), [=](const std::vector<long long>& v) { return mkop("selfapp", {v}); })},
 	});
 }
 
